@@ -1,3 +1,136 @@
-/-! # C12 — (stub: property theorems go here; see docs/BUILDING.md) -/
+import PtVerif.Proofs.Density
+import PtVerif.Proofs.RealTransc
+import PtVerif.Generated.FormulaConsts
+import Mathlib.Tactic.NormNum
+/-!
+# C12 — density, natural density, isotope substitution and cell volume are consistent
+
+Model: `Model/Density.lean` (`natural_mass_ratio`, the `natural_density` property pair,
+`Formula.__init__` / `formula()` density routes, `_isotope_substitution`, `Formula.volume`,
+`util.cell_volume`, `density.density` for isotopes); packing factors are regenerated from
+formulas.py (`Generated/FormulaConsts`).
+-/
 namespace PtVerif.C12
+open PtModel
+
+variable {α : Type}
+
+/-- natural density = density × (mass with every isotope replaced by its natural element,
+    ion charges kept) / (actual mass) -/
+theorem natural_density_eq [Field α] (am : Atom → α) (t : List (Atom × α)) (ρ : α) :
+    getNaturalDensity am t ρ =
+      ρ * (massOf (fun a => am (naturalAtom a)) t / massOf am t) := by
+  unfold getNaturalDensity; rw [naturalMassRatio_eq]
+
+/-- "replaced by its natural element, ion charges kept": the natural partner of `(Z, A, q)`
+    is `(Z, 0, q)`, which weighs the element's mass less `q` electron masses -/
+theorem natural_atom_mass [CommRing α] (m : Nat → Nat → α) (me : α) (x : Atom) :
+    atomMass m me (naturalAtom x) = m x.z 0 - me * (x.q : α) := by
+  unfold atomMass naturalAtom
+  by_cases h : x.q = 0 <;> simp [h]
+
+/-- setting the natural density and reading it back inverts (ratio ≠ 0) … -/
+theorem set_natural_then_get [Field α] (am : Atom → α) (t : List (Atom × α)) (nd : α)
+    (h : naturalMassRatio am t ≠ 0) :
+    getNaturalDensity am t (setNaturalDensity am t nd) = nd := get_set_natural am t nd h
+
+/-- … and so does reading the natural density of a density and storing it again -/
+theorem get_natural_then_set [Field α] (am : Atom → α) (t : List (Atom × α)) (ρ : α)
+    (h : naturalMassRatio am t ≠ 0) :
+    setNaturalDensity am t (getNaturalDensity am t ρ) = ρ := set_get_natural am t ρ h
+
+/-- density by keyword, by attribute (the stored value itself) or by the `@d` / `@di` tag -/
+theorem density_routes_agree [Field α] (am : Atom → α) (ad : Atom → Option α) (t : List (Atom × α)) (d : α) :
+    stringDensity am ad t none (some d) none = some d ∧
+    stringDensity am ad t (some (d, false)) none none = some d ∧
+    ctorDensity am ad t (some d) none = some d := ⟨rfl, rfl, rfl⟩
+
+/-- natural density by keyword, by attribute (`setNaturalDensity`) or by the `@dn` tag -/
+theorem natural_density_routes_agree [Field α] (am : Atom → α) (ad : Atom → Option α)
+    (t : List (Atom × α)) (nd : α) :
+    stringDensity am ad t none none (some nd) = some (setNaturalDensity am t nd) ∧
+    stringDensity am ad t (some (nd, true)) none none = some (setNaturalDensity am t nd) ∧
+    ctorDensity am ad t none (some nd) = some (setNaturalDensity am t nd) := ⟨rfl, rfl, rfl⟩
+
+/-- a single-atom formula defaults to that atom's density; others to unknown -/
+theorem single_atom_default [Field α] (am : Atom → α) (ad : Atom → Option α) (a : Atom) (c : α) :
+    ctorDensity am ad [(a, c)] none none = ad a := rfl
+
+theorem several_atoms_default [Field α] (am : Atom → α) (ad : Atom → Option α)
+    (e₁ e₂ : Atom × α) (r : List (Atom × α)) :
+    ctorDensity am ad (e₁ :: e₂ :: r) none none = none := rfl
+
+/-- an isotope's density is the element density scaled by the mass ratio, unknown if the
+    element's is unknown -/
+theorem isotope_density [Field α] (m : Nat → Nat → α) (ed : Nat → Option α) (x : Atom) (h : x.a ≠ 0) :
+    atomDensity m ed x = (ed x.z).map fun d => d * (m x.z x.a / m x.z 0) := by
+  unfold atomDensity
+  cases ed x.z <;> simp [h]
+
+/-- substitution keeps every other count, scales the source by `1 - p` and adds to the target -/
+theorem replace_counts [Field α] [DecidableEq α] (am : Atom → α) (t : List (Atom × α)) (d : Option α)
+    (src tgt : Atom) (p : α) (hs : hasKey t src = true) (hne : src ≠ tgt) (b : Atom) :
+    lookupD (substitute am t d src tgt p).1 b =
+      if b = src then lookupD t src * (1 - p)
+      else if b = tgt then lookupD t tgt + lookupD t src * p
+      else lookupD t b := substitute_counts am t d src tgt p hs hne b
+
+/-- … and the cell volume: the new density is ρ·M'/M -/
+theorem replace_keeps_cell_volume [Field α] [DecidableEq α] (am : Atom → α) (t : List (Atom × α))
+    (hn : KeysNodup t) (ρ : α) (src tgt : Atom) (p : α) (hs : hasKey t src = true) (hne : src ≠ tgt)
+    (hM : massOf am t ≠ 0) :
+    (substitute am t (some ρ) src tgt p).2 =
+      some (ρ * massOf am (substitute am t (some ρ) src tgt p).1 / massOf am t) :=
+  substitute_density am t hn ρ src tgt p hs hne hM
+
+theorem replace_unknown_stays_unknown [Field α] [DecidableEq α] (am : Atom → α) (t : List (Atom × α))
+    (src tgt : Atom) (p : α) : (substitute am t none src tgt p).2 = none :=
+  substitute_unknown am t src tgt p
+
+theorem replace_absent_is_identity [Field α] [DecidableEq α] (am : Atom → α) (t : List (Atom × α))
+    (d : Option α) (src tgt : Atom) (p : α) (hs : hasKey t src = false) :
+    substitute am t d src tgt p = (t, d) := substitute_absent am t d src tgt p hs
+
+/-- estimated volume: summed covalent-sphere volume over the packing factor (cm³) -/
+theorem volume_spheres (radius : Atom → ℝ) (t : List (Atom × ℝ)) (pf : ℝ) :
+    sphereVolume radius t pf =
+      (4 * Real.pi / 3 * wsum (fun a => radius a ^ 3) t) / pf * 1e-24 := by
+  unfold sphereVolume
+  have h := massOf_eq_wsum' (fun a => radius a * radius a * radius a) t (0 : ℝ)
+  simp only [zero_add] at h
+  rw [h]
+  have : wsum (fun a => radius a * radius a * radius a) t = wsum (fun a => radius a ^ 3) t := by
+    unfold wsum; congr 1; apply List.map_congr_left; intro e _; ring
+  rw [this]; simp only [Transc.pi_real]; norm_num; ring
+
+/-- lattice cell volume `a b c √(1 − cos²α − cos²β − cos²γ + 2 cos α cos β cos γ)` (angles in degrees) -/
+theorem volume_lattice (a b c al be ga : ℝ) :
+    latticeVolume a (some b) (some c) (some al) (some be) (some ga) =
+      a * b * c * Real.sqrt (1 - Real.cos (al * (Real.pi / 180)) ^ 2 - Real.cos (be * (Real.pi / 180)) ^ 2
+        - Real.cos (ga * (Real.pi / 180)) ^ 2
+        + 2 * Real.cos (al * (Real.pi / 180)) * Real.cos (be * (Real.pi / 180)) * Real.cos (ga * (Real.pi / 180)))
+      * 1e-24 := by
+  unfold latticeVolume cellVolume radians
+  simp only [Option.getD_some, Transc.cos_real, Transc.sqrt_real, Transc.pi_real]
+  norm_num
+  left; congr 1; ring
+
+/-- with the defaults (`b, c ← a`, all angles 90°) the cell is the cube `a³` -/
+theorem volume_lattice_cubic (a : ℝ) :
+    latticeVolume a none none none none none = a * a * a * 1e-24 := by
+  unfold latticeVolume cellVolume
+  simp
+
+/-- the packing factors regenerated from formulas.py are the crystallographic ones -/
+theorem packing_factors :
+    (PtGen.packingFactors : List (String × ℝ)) =
+      [("cubic", Real.pi / 6), ("bcc", Real.pi * Real.sqrt 3 / 8), ("hcp", Real.pi / Real.sqrt 18),
+       ("fcc", Real.pi / Real.sqrt 18), ("diamond", Real.pi * Real.sqrt 3 / 16)] := by
+  unfold PtGen.packingFactors
+  simp
+
+/-! non-vacuity: D⁺ next to O²⁻ – the natural partner keeps the charge -/
+example : naturalAtom ⟨1, 2, 1⟩ = ⟨1, 0, 1⟩ := rfl
+example : hasKey [((⟨1, 0, 0⟩ : Atom), (2 : ℚ)), (⟨8, 0, 0⟩, 1)] ⟨1, 0, 0⟩ = true := by decide
+
 end PtVerif.C12
